@@ -6,7 +6,7 @@ use crate::gen::{Cfg, ContentSpec, KeyType, Op, Workload, B, KEY_TYPES};
 use crate::props::gen_keys_hex;
 use crate::rng::Rng;
 
-pub const CONC_PROPS: [&str; 8] = ["C04", "C05", "C06", "C07", "C08", "C11", "C13", "C15"];
+pub const CONC_PROPS: [&str; 10] = ["C04", "C05", "C06", "C07", "C08", "C11", "C13", "C15", "C17", "C19"];
 
 fn small_sizes(rng: &mut Rng, n: usize, distinct: bool) -> Vec<ContentSpec> {
     let pool = [0usize, 1, 5, 44, 100, 300, 1000, 9000];
@@ -85,9 +85,9 @@ pub fn gen_case(prop: &str, seed: u64, tier: &str, _run: u64) -> Case {
     let schedules = if thorough { 600 } else { 150 };
     let sseed = rng.next();
     // C11: one third of the programs race on a directory that does not exist yet
-    let fresh_dir = prop == "C11" && Rng::new(seed ^ 0x11).chance(1, 3);
+    let fresh_dir = (prop == "C11" && Rng::new(seed ^ 0x11).chance(1, 3)) || (prop == "C19" && Rng::new(seed ^ 0x19).chance(3, 4));
     let (workload, tasks, orphans, shared_handle) = match prop {
-        "C05" | "C06" => {
+        "C05" | "C06" | "C17" => {
             // readers against overwriting / removing writers on the same key; every written value unique
             let n_writes = 2 + rng.below(3) as usize;
             let contents = small_sizes(&mut rng, n_writes + 1, true);
@@ -130,7 +130,17 @@ pub fn gen_case(prop: &str, seed: u64, tier: &str, _run: u64) -> Case {
                             tasks[t].push(COp::Remove { k });
                         }
                     } else {
-                        let op = if prop == "C06" && rng.chance(1, 2) { COp::Reader { k } } else { reader_op(&mut rng, k, sizes[0] as u64) };
+                        let op = if prop == "C06" && rng.chance(1, 2) {
+                            COp::Reader { k }
+                        } else if prop == "C17" {
+                            // range reads (mostly with huge ends) racing overwrites that change the length
+                            let l = sizes[rng.below(sizes.len() as u64) as usize] as u64;
+                            let (s, e) = crate::gen::gen_range_bounds(&mut rng, l);
+                            let (s, e) = (s.min(e), s.max(e));
+                            COp::GetRange { k, start: if rng.chance(1, 2) { 0 } else { s.min(l) }, end: if rng.chance(1, 2) { u64::MAX } else { e } }
+                        } else {
+                            reader_op(&mut rng, k, sizes[0] as u64)
+                        };
                         tasks[t].push(op);
                     }
                 }
@@ -196,16 +206,18 @@ pub fn gen_case(prop: &str, seed: u64, tier: &str, _run: u64) -> Case {
             }
             (wl, tasks, orphans, true)
         }
-        "C11" => {
+        "C11" | "C19" => {
             let contents = small_sizes(&mut rng, 2, false);
             let pre = rng.below(3) as usize;
             let wl = base_workload(&mut rng, 2, contents, pre);
             let n_tasks = 2 + rng.below(3) as usize;
             let mut tasks = Vec::new();
             for _ in 0..n_tasks {
-                let mut t = vec![COp::OpenHold { hold: rng.below(3) as u32, keep_clone: rng.chance(1, 3), recover: rng.chance(1, 2) }];
+                // C19: the tasks disagree about the creation-time segment size
+                let n = if prop == "C19" { *rng.pick(&[0u64, 0, 17, 23]) } else { 0 };
+                let mut t = vec![COp::OpenHold { hold: rng.below(3) as u32, keep_clone: rng.chance(1, 3), recover: rng.chance(1, 2), n }];
                 if rng.chance(1, 3) {
-                    t.push(COp::OpenHold { hold: 0, keep_clone: false, recover: false });
+                    t.push(COp::OpenHold { hold: 0, keep_clone: false, recover: false, n });
                 }
                 tasks.push(t);
             }
@@ -269,6 +281,8 @@ pub fn spec(prop: &str) -> Option<Spec> {
         "C08" => s("C08", "exploration", 400, 4000, "concurrent part: delete_orphans / quarantine_orphans / delete_orphan racing puts of the orphaned content (also two writers on one key) and removes; MON-no-dangling + end-state readable: a blob that a put committed is never removed by clean-up"),
         "C11" => s("C11", "exploration", 300, 3000, "threads part: 2-4 tasks race open / open_with_recover on one directory (fresh or populated), hold the handle for 0-2 operations, keep clones / OrphanStats past the drop, reopen; at most one live handle; a losing open fails with AlreadyOpened and its slice of the call trace has no mutating call except opening LOCK; a final open succeeds"),
         "C13" => s("C13", "exploration", 300, 3000, "concurrent part: a transaction on key k abandoned at a scheduler-chosen point while another task commits on k and a third removes a key sharing content; final state is what the committing tasks alone produce (linearizable with the aborted put as a no-op), staging empty"),
+        "C17" => s("C17", "exploration", 250, 2500, "concurrent part: get_range (start 0 or random, end 2^64-1 or random) racing overwrites of the same key with values of different, pairwise distinct lengths; the bytes returned must be the [min(start,L), min(end,L)) slice of one value the key held (a length taken from one value and bytes from another is the violation)"),
+        "C19" => s("C19", "exploration", 250, 2500, "concurrent part: 2-4 tasks race first opens of a directory that does not exist yet (3 of 4 programs) with different num_ops_per_wal; the first successful open fixes the creation value; afterwards every open with that value must succeed, any other value must be rejected with the validation error - also by the final opens after all tasks are gone"),
         "C15" => s("C15", "exploration", 400, 4000, "programs with the full call mix (puts, reads incl. iteration, removes, range removes, explicit checkpoints, roll-over checkpoints via N in {1,2,3}, orphan clean-up); every execution must end with all tasks finished: shuttle's 'no runnable task' = deadlock, > 30000 scheduling steps = hang; the held->acquired lock graph is reported in the evidence"),
         _ => None,
     }
